@@ -66,6 +66,8 @@ type Op struct {
 	Delta    bool              `json:"delta,omitempty"`
 	CPUDelta int               `json:"cpu_delta,omitempty"`    // set-node: cores (delta) or absolute core count
 	MemDelta int64             `json:"memory_delta,omitempty"` // set-node
+	NUMACPU  []string          `json:"numa_cpu,omitempty"`     // set-node: per NUMA node a core list ("0,1")
+	NUMAMem  []string          `json:"numa_memory,omitempty"`  // set-node: per NUMA node an amount ("256M")
 	Bypass   int               `json:"bypass,omitempty"`       // 0 keep 1 true 2 false
 	Control  string            `json:"control,omitempty"`
 	Files    map[string]int    `json:"files,omitempty"` // send: path -> size
@@ -77,7 +79,7 @@ func (o Op) String() string {
 	case "create":
 		return fmt.Sprintf("create %s/%s x%d %s pod=%s inc=%v exc=%v labels=%v res=%+v", o.App, o.Entry, o.Count, o.Strategy, o.Pod, o.Includes, o.Excludes, o.Labels, o.Res)
 	case "set-node":
-		return fmt.Sprintf("set-node %s delta=%v cpu=%d mem=%d bypass=%d labels=%v", o.Node, o.Delta, o.CPUDelta, o.MemDelta, o.Bypass, o.Labels)
+		return fmt.Sprintf("set-node %s delta=%v cpu=%d mem=%d numa=%v/%v bypass=%d labels=%v", o.Node, o.Delta, o.CPUDelta, o.MemDelta, o.NUMACPU, o.NUMAMem, o.Bypass, o.Labels)
 	}
 	return fmt.Sprintf("%s picks=%v ids=%d node=%s res=%+v %s", o.Kind, o.Picks, len(o.IDs), o.Node, o.Res, o.Control)
 }
@@ -355,8 +357,14 @@ func (cl *Cluster) Exec(m *Model, op Op, label string) *Result {
 		}
 	case "set-node":
 		o := &types.SetNodeOptions{Nodename: op.Node, Delta: op.Delta, Labels: op.Labels, Bypass: types.TriOptions(op.Bypass)}
-		if op.CPUDelta != 0 || op.MemDelta != 0 {
+		if op.CPUDelta != 0 || op.MemDelta != 0 || len(op.NUMACPU) > 0 || len(op.NUMAMem) > 0 {
 			p := resourcetypes.RawParams{}
+			if len(op.NUMACPU) > 0 {
+				p["numa-cpu"] = op.NUMACPU
+			}
+			if len(op.NUMAMem) > 0 {
+				p["numa-memory"] = op.NUMAMem
+			}
 			if op.CPUDelta != 0 {
 				p["cpu"] = op.CPUDelta
 			}
@@ -420,8 +428,8 @@ func (cl *Cluster) Exec(m *Model, op Op, label string) *Result {
 		r.Parts = append(r.Parts, p)
 		r.Closed = true
 		return r
-	case "node-resource":
-		_, err := cl.C.NodeResource(ctx, op.Node, false)
+	case "node-resource", "node-repair":
+		_, err := cl.C.NodeResource(ctx, op.Node, op.Kind == "node-repair")
 		p := Part{Node: op.Node, OK: err == nil}
 		if err != nil {
 			p.Err = err.Error()
